@@ -31,21 +31,56 @@ func main() {
 	}
 	replace := map[string]string{}
 	_ = os.RemoveAll(*dir)
+	// Rules per package directory. The directory "*" stands for every package of the
+	// repository except cmd/, mgr and dashboard (process wiring, logging to the real stderr,
+	// HTTP templates): a seam that must hold wherever the code under test is moved to.
+	dirRules := map[string]map[string]string{}
+	var order []string
+	addRule := func(d, o, n string) {
+		if dirRules[d] == nil {
+			dirRules[d] = map[string]string{}
+			order = append(order, d)
+		}
+		dirRules[d][o] = n
+	}
 	for _, spec := range flag.Args() {
 		pkgdir, rules, ok := strings.Cut(spec, ":")
 		if !ok {
 			fmt.Fprintln(os.Stderr, "bad spec", spec)
 			os.Exit(2)
 		}
-		m := map[string]string{}
+		var dirs []string
+		if pkgdir == "*" {
+			_ = filepath.WalkDir(*repo, func(p string, d os.DirEntry, err error) error {
+				if err != nil || !d.IsDir() {
+					return nil
+				}
+				rel, _ := filepath.Rel(*repo, p)
+				if strings.HasPrefix(d.Name(), ".") && rel != "." {
+					return filepath.SkipDir
+				}
+				if rel == "cmd" || rel == "mgr" || rel == "dashboard" {
+					return filepath.SkipDir
+				}
+				dirs = append(dirs, rel)
+				return nil
+			})
+		} else {
+			dirs = []string{pkgdir}
+		}
 		for _, r := range strings.Split(rules, ",") {
 			o, n, ok := strings.Cut(r, "=")
 			if !ok {
 				fmt.Fprintln(os.Stderr, "bad rule", r)
 				os.Exit(2)
 			}
-			m[o] = n
+			for _, d := range dirs {
+				addRule(d, o, n)
+			}
 		}
+	}
+	for _, pkgdir := range order {
+		m := dirRules[pkgdir]
 		src := filepath.Join(*repo, pkgdir)
 		ents, err := os.ReadDir(src)
 		if err != nil {
